@@ -477,6 +477,7 @@ type RsObs struct {
 }
 
 func observeRS(f func() *zlint.ResultSet) (o RsObs, nilResult bool) {
+	tick()
 	defer func() {
 		if r := recover(); r != nil {
 			o = RsObs{Panic: fmt.Sprintf("%v", r)}
